@@ -300,7 +300,7 @@ PROPS["C09"]["claim"] += (" Plus the commit rule itself on the real BufferedRaft
                           "returns the last index when everybody holds the whole log and its last entry is from the current term (1..=4 voter peers).")
 PROPS["C09"]["claim"] += (" And the voter filter (verbatim slice of LeaderState::calculate_new_commit_index): the match indexes handed to the commit rule are exactly those of the "
                           "peers that are current replication targets with a non-learner role (learners and removed peers never count), the rule is consulted once with the "
-                          "leader's term and commit index, and the commit index only moves forward.")
+                          "leader's term and commit index, and a returned commit index is the rule's answer and above the old one.")
 PROPS["C09"]["outside"] = ["update_match_index / the HashMap bookkeeping itself (std HashMap: symbolic execution does not finish); the slice replaces the map by an array model",
                            "mid-flight learner->voter flips across events",
                            "more than 4 voter peers; logs longer than 3 entries"]
@@ -350,8 +350,8 @@ _c07f = [H(n, "gen_follower::h", crate="shadow", timeout=600, common=False, loop
                         ("c07_follower_step_two_entries", "request with 2 entries"))]
 PROPS["C07"]["harnesses"] += _c07f
 PROPS["C07"]["claim"] += (" Plus the WIRING of the follower's handler (verbatim slices of handle_append_entries, check_append_entries_request_is_legal, if_update_commit_index_as_follower and "
-                          "the response helpers): a request is rejected exactly when its term is stale or its prev entry does not match; a rejected request changes neither the log nor the commit "
-                          "index; an accepted one appends exactly its own entries at its own prev, moves the commit index only forward to min(leader commit, own last index), and acknowledges "
+                          "the response helpers): a request whose term is stale or whose prev entry does not match is never accepted; a rejected request changes neither the log nor the commit "
+                          "index; an accepted one appends exactly its own entries at its own prev, sets a commit index only when the leader's is ahead and never beyond min(leader commit, own last index), and acknowledges "
                           "what the append returned.")
 PROPS["C07"]["outside"] = [o for o in PROPS["C07"]["outside"] if "handle_append_entries" not in o] + [
     "the conflict-aware append itself on a non-empty log (BufferedRaftLog::filter_out_conflicts_and_append: not decidable, DESIGN 2c) -- the wiring harness records the call",
